@@ -40,7 +40,7 @@ def is_cases(e):
 
 
 def is_cands(e):
-    e = peel(e, ("DerefMut::deref_mut", "Deref::deref"), casts=False)
+    e = peel(e, ("DerefMut::deref_mut", "Deref::deref", "Vec::as_slice", "Vec::as_mut_slice"), casts=False)
     return match(e, Call("Iterator::collect", Call("IntoIterator::into_iter", Param(2), nargs=1), nargs=1))
 
 
@@ -64,6 +64,8 @@ def is_head_expr(x):
 def is_tail_expr(x):
     if x[0] == "field" and x[2] == 1 and _split(x[1]):
         return True
+    if x[0] == "subslice" and len(x) >= 5 and is_cands(x[1]) and x[2] == 1 and x[3] == 0 and x[4] is True:
+        return True          # the `rest @ ..` of a slice pattern [first, rest @ ..]
     if callee_is(x, "Index::index") and is_cands(x[3][0]) and match(x[3][1], Agg("RangeFrom::RangeFrom", Const(1))):
         return True
     if callee_is(x, "Iterator::skip") and len(x[3]) == 2 and x[3][1][0] == "const" and x[3][1][3] == 1:
@@ -242,7 +244,18 @@ def check(ctx):
         ok_exh = ok_exh and bool(nx) and nx[-1][1] == 0
     ctx.check(ok_exh, "R08.3", "exit-when-cases-exhausted", "%d paths leave the loop through next() == None" % len(exh), at)
     errs = [p for p in paths if p.end == "return" and is_err_return(p)]
-    ctx.check(all(callee_is(p.ret, "FromResidual::from_residual") for p in errs), "R08.3", "error-exits-are-?-propagations",
+    def err_exit_ok(p):
+        """`?` on a checked accessor, or an explicit `return Err(<one of the selector's documented errors>)`"""
+        if callee_is(p.ret, "FromResidual::from_residual"):
+            return True
+        r = p.ret
+        if r is not None and r[0] == "agg" and r[1] == "adt" and path_ends(r[2], "Result::Err") and len(r[3]) == 1:
+            e = r[3][0]
+            while callee_is(e, "Into::into", "From::from") and len(e[3]) == 1:
+                e = e[3][0]
+            return e[0] == "agg" and e[1] == "adt" and (path_ends(e[2], "EmptyPopulation::EmptyPopulation") or "LexicaseError::" in e[2])
+        return False
+    ctx.check(all(err_exit_ok(p) for p in errs), "R08.3", "error-exits-are-?-propagations",
               "%d error return paths" % len(errs), at)
 
     # ---- R08.4 ----------------------------------------------------------------
@@ -255,6 +268,10 @@ def check(ctx):
         fi = [c for c in cs if callee_is(c, "[T]::first") and is_cands(c[3][0]) and p.ret is not None and mentions(p.ret, c)][-1:]
         ok = len(sh) == 1 and len(fi) == 1 and sh[0][3][1] == RNG and cs.index(sh[0]) < max(i for i, c in enumerate(cs) if c == fi[0])
         ret_ok = match(p.ret, Through(Call("Option::ok_or", Through(Bind("f", Call("[T]::first")), calls=("Option::copied",))), calls=("Result::map_err",))) and fi and mentions(p.ret, fi[0])
+        if not ret_ok and fi:
+            # the same spelled as a match: Some(x) => Ok(*x) on the path where first() is Some
+            some = any(c[0] == ("discr", fi[0]) and c[1] == 1 for c in p.conds)
+            ret_ok = some and match(p.ret, Agg("Result::Ok", lambda e: peel(e, ("Clone::clone",)) == ("field", fi[0], 0, "Some")))
         ctx.check(ok and ret_ok, "R08.4", "final-shuffle-before-first/%d" % i, short(p.ret, 6), at,
                   bad_detail="non-error return is not first() of the survivors after shuffle(survivors, rng): shuffles=%d firsts=%d ret=%s" % (len(sh), len(fi), short(p.ret, 8)))
 
